@@ -137,10 +137,16 @@ func c13Run(c *Ctx) {
 	// crossing names on purpose
 	if crossing != 0 && len(opts) >= 2 {
 		var other *Opt
+		var others []*Opt
 		for _, o := range opts {
 			if o != target && !o.NoIni {
-				other = o
+				others = append(others, o)
 			}
+		}
+		if len(others) > 0 {
+			// either declaration order: the weaker match may come before or after the stronger one, in the same or
+			// in an enclosing / nested group
+			other = others[r.Intn(len(others))]
 		}
 		if other != nil {
 			switch crossing {
@@ -340,7 +346,13 @@ func c13Run(c *Ctx) {
 	if secName != "" {
 		text = "[" + secName + "]\n"
 	}
-	text += strings.Join(iniLines, "\n") + "\n"
+	if secName != "" && len(iniLines) >= 2 && r.Chance(1, 3) {
+		// the same section re-opened: its entries still count once each
+		k := r.Range(1, len(iniLines)-1)
+		text += strings.Join(iniLines[:k], "\n") + "\n[" + secName + "]\n" + strings.Join(iniLines[k:], "\n") + "\n"
+	} else {
+		text += strings.Join(iniLines, "\n") + "\n"
+	}
 	var path []string
 	for _, cm := range resolved.Cmd.Chain()[1:] {
 		path = append(path, cm.Name)
